@@ -124,13 +124,13 @@ func rbColored(n *redblacktree.Node[int, int]) string {
 	if n.VerifColor() {
 		c = "RB.B"
 	}
-	return fmt.Sprintf("(T %s %s %d %d %s)", c, rbColored(n.Left), n.Key, n.Value, rbColored(n.Right))
+	return fmt.Sprintf("(T %s %s %s %s %s)", c, rbColored(n.Left), vhlib.Z(int64(n.Key)), vhlib.Z(int64(n.Value)), rbColored(n.Right))
 }
 func avlBalanced(n *avltree.Node[int, int]) string {
 	if n == nil {
 		return "E"
 	}
-	return fmt.Sprintf("(T %s %s %d %d %s)", vhlib.Z(int64(n.VerifBalance())), avlBalanced(n.Children[0]), n.Key, n.Value, avlBalanced(n.Children[1]))
+	return fmt.Sprintf("(T %s %s %s %s %s)", vhlib.Z(int64(n.VerifBalance())), avlBalanced(n.Children[0]), vhlib.Z(int64(n.Key)), vhlib.Z(int64(n.Value)), avlBalanced(n.Children[1]))
 }
 
 func binOps(w *vhlib.Writer, rng *vhlib.Rng, o vhlib.Opts) {
